@@ -179,21 +179,22 @@ def check(case, stats: Stats):
             what = f"{entry}: {mode} at effect {k}/{n} ({eff['kind']} {eff['desc']})\n{ctx}"
             check_content(before, after, shape, what, inj_case)
             now = classify_tree(root)
-            if now != baseline:
-                rules_on_disk = [p for p in after if p.endswith(('merchant_categories.csv', 'merchants.rules')) or '.csv.bak' in p]
-                empty_handed = isinstance(now, dict) and now and all(v[0] == 'Unknown' for v in now.values()) and any(v[0] != 'Unknown' for v in baseline.values())
-                if empty_handed and rules_on_disk:
-                    # (3) is violated already; still try (2) to describe the state precisely
-                    pass
-                run_entry(entry, root, shape)  # re-run the same command once, no fault
-                again = classify_tree(root)
-                if again != baseline:
-                    raise Violation(f'stranded: {what}\nafter the fault `tally up` gives {now}\nafter re-running `{entry}` it gives {again}\nbaseline {baseline}\n'
-                                    f'files: {sorted(snapshot(root))}', inj_case, 'stranded')
-                if empty_handed and rules_on_disk:
-                    raise Violation(f'empty-handed: {what}\n`tally up` classified with no rules (everything Unknown) although the user\'s rules are on disk in {rules_on_disk}; '
-                                    f're-running {entry} repaired it', inj_case, 'empty-handed')
-                check_content(before, snapshot(root), shape, what + '\n(after the re-run)', inj_case)
+            rules_on_disk = [p for p in after if p.endswith(('merchant_categories.csv', 'merchants.rules')) or '.csv.bak' in p]
+            empty_handed = isinstance(now, dict) and now and all(v[0] == 'Unknown' for v in now.values()) and any(v[0] != 'Unknown' for v in baseline.values())
+            # the user re-runs the command (whether or not the budget still works: the migration is visibly unfinished); the budget must classify as before
+            # afterwards - in particular a half-written leftover of the first attempt must not be taken for the finished product
+            run_entry(entry, root, shape)
+            again = classify_tree(root)
+            if again != baseline:
+                raise Violation(f'stranded: {what}\nafter the fault `tally up` gives {now}\nafter re-running `{entry}` it gives {again}\nbaseline {baseline}\n'
+                                f'files: {sorted(snapshot(root))}', inj_case, 'stranded')
+            if now != baseline and not (empty_handed and rules_on_disk):
+                # allowed by the statement only if the re-run repairs it (it did); an error state is fine, silently classifying without the rules is not
+                pass
+            if empty_handed and rules_on_disk:
+                raise Violation(f'empty-handed: {what}\n`tally up` classified with no rules (everything Unknown) although the user\'s rules are on disk in {rules_on_disk}; '
+                                f're-running {entry} repaired it', inj_case, 'empty-handed')
+            check_content(before, snapshot(root), shape, what + '\n(after the re-run)', inj_case)
             shutil.rmtree(root, ignore_errors=True)
             stats.case(jhash([shape, case['rules'], k, mode]), 1 <= k < n, ['mode_' + mode] + (['intermediate_prefix'] if 1 <= k < n else []),
                        sample={'entry': entry, 'k': k, 'mode': mode, 'effect': eff} if (k == 1 and mode == 'crash' and len(stats.samples) < 4) else None)
